@@ -876,6 +876,21 @@ func (c *compiler) resolveWithLookahead() {
 				continue
 			}
 
+			if action := c.out.Action[state.index]; action < -2 {
+				var runtimeRule bool
+				for i := -3 - action; c.out.Lalr[i] >= 0; i += 2 {
+					if c.out.Lalr[i] == int(term) && c.out.Lalr[i+1] >= len(c.grammar.Rules) {
+						runtimeRule = true
+					}
+				}
+				if runtimeRule {
+					// The entry already holds a runtime lookahead decision (predicates evaluated by
+					// the parser); a multi-token automaton must not replace it.
+					resolved = false
+					continue
+				}
+			}
+
 			trie := builder.resolve(filteredGts, c.lookahead-1)
 			if trie == nil {
 				resolved = false
